@@ -602,7 +602,6 @@ class GroupBy:
                 not_null = codes >= 0
                 unified[not_null] = pointer[codes[not_null]]
                 chunks.append(unified)
-            self._group_key_pointers = None
         elif keep_chunked:
             # no pointers to unify, but we want to keep chunked so do nothing
             return
@@ -611,9 +610,12 @@ class GroupBy:
             chunks = [k.to_numpy() for k in self._group_ikey.chunks]
 
         if keep_chunked:
-            self._group_ikey = pa.chunked_array(chunks)
+            unified_key = pa.chunked_array(chunks)
         else:
-            self._group_ikey = np.concatenate(chunks)
+            unified_key = np.concatenate(chunks)
+        # codes and pointer tables change together: a failure above (e.g. the
+        # allocation of the unified key) must leave both as they were
+        self._group_ikey, self._group_key_pointers = unified_key, None
 
     def _unify_group_key_chunks_for_positional_mask(self, mask):
         """
